@@ -11,6 +11,11 @@ CHECKS = {
             "Every string up to 3 (quick) / 4 (thorough) symbols over a 22-symbol HTML-adversarial alphabet (markup metacharacters, both quotes, NUL/CR/LF/TAB, invalid UTF-8 bytes), entity- and tag-shaped strings, every Unicode scalar value and invalid UTF-8 byte (pairs in thorough) as singletons, through 41 dynamic HTML sinks compiled at check time with the current generator (text in 12 surroundings incl. RCDATA, string and (string,error) attributes, conditional attributes, 9 class container forms, style result, href/action after URL typing, 5 spread forms, JSON script id/type/nonce, script/onclick/JSON nonce from context). The output is tokenized by the reference HTML5 tokenizer: token skeleton equal to the benign render, the slot decodes to exactly the string; x/net/html must agree on the skeleton.",
             "Trusts ref/htmltok (WHATWG tokenizer states, cross-checked against x/net/html on 579k inputs); tokenizer-level, no tree construction; spread attribute names are author-chosen.",
             "4.1", "enum+tgen"),
+    "C03": ("exploration",
+            "bounded exhaustive value x JavaScript-position enumeration on compiled templates + every small script body through the real parser, vs reference HTML tokenizer and JS literal lexer/evaluator",
+            "Part 1: every string up to 2/3 symbols over a 26-symbol JS/HTML-adversarial alphabet, nested slices/maps/structs/pointers of every string up to 1/2 symbols, numbers/bools/nil/RawMessage, every Unicode scalar value and high byte, through 9 JavaScript positions of templates compiled at check time (bare, ' \" ` literals, on* attribute via JSFuncCall and script template, inline calls, JSON script body): the HTML tokenizer must end the element/attribute where the template ends it without entering the script-data escaped state, and the JS lexer/evaluator must read the emitted text as one literal / one JSON value equal to the Go value's JSON encoding. Part 2: every script body up to 3/4 tokens over a 25-token JS alphabet (strings with the other quote / escaped quotes / comment markers, comments with quotes, regex literals, {{ }} bare and inside each literal kind) is parsed by the real script parser; the output is reconstructed from the parse tree and the real escapers for 13 adversarial values and each slot is evaluated in its TRUE lexical context decided by the reference JS lexer. Part 3: the reconstruction is validated against compiled templates.",
+            "Trusts ref/jslit (string-literal evaluation, JSON-subset parser, regex-vs-division heuristic) and ref/htmltok. Bodies that are invalid JS for the reference lexer and slots inside comments/regexes are skipped and counted. JSExpression / JSUnsafeFuncCall are documented raw.",
+            "4.3", "enum+tgen"),
     "C04": ("exploration",
             "bounded exhaustive input enumeration vs WHATWG scheme extractor + compile-time type gate",
             "Every token sequence up to 4 (quick) / 5 (thorough) over a 30-token URL-adversarial alphabet (scheme names in both cases, ':', '/', '\\', '?', '#', %3a, character references, TAB/LF/CR/space/NUL/0x01, U+017F, U+212A), every character string up to 5/6 over 12 characters and every one-token edit of 19 known XSS vectors goes through templ.URL; strings up to 3/4 tokens also through the compiled href/action sinks, re-read with the reference HTML tokenizer. A type gate compiles templates with plain-string href/action (any attribute-name case) and requires the build to fail.",
